@@ -73,8 +73,14 @@ var (
 	inTopStr2 = []byte(`"` + strings.Repeat("g", 600) + "\\" + `t` + strings.Repeat("g", 600) + `"`)
 	inTopNum  = []byte(`12.5`)
 	// many distinct escaped member names (any table keyed by name has collisions across the two)
-	inKeysA = manyEscapedKeys("a", 1100)
-	inKeysB = manyEscapedKeys("b", 1100)
+	// nesting deeper than any small fixed threshold (32, 64), arrays and objects
+	inDeep70  = []byte(strings.Repeat("[", 70) + "2.5" + strings.Repeat("]", 70))
+	inDeepObj = []byte(strings.Repeat(`{"k":`, 45) + "[[3.5]]" + strings.Repeat("}", 45))
+	// the same slow-path literals several times in one document / call sequence
+	inSlowRep1 = []byte(`[9007199254740993.00000000000000000000001,9007199254740993.00000000000000000000001,2.5e-320,9007199254740993.00000000000000000000001]`)
+	inSlowRep2 = []byte(`{"a":4503599627370497.5000000000000000000000000000,"b":7e-320,"c":4503599627370497.5000000000000000000000000000}`)
+	inKeysA    = manyEscapedKeys("a", 1100)
+	inKeysB    = manyEscapedKeys("b", 1100)
 )
 
 func manyEscapedKeys(tag string, n int) []byte {
@@ -126,7 +132,8 @@ var sharedInputs = func() []struct {
 	return []in{mk("inDoc", inDoc), mk("inDoc2", inDoc2), mk("inDoc3", inDoc3), mk("inDoc4", inDoc4), mk("inBad", inBad), mk("inBadFast", inBadFast),
 		mk("inFloatF", inFloatF), mk("inFloatEL", inFloatEL), mk("inFloatS1", inFloatS1), mk("inFloatS2", inFloatS2), mk("inFloatOv", inFloatOv), mk("inInt", inInt), mk("inUint", inUint),
 		mk("inStrEsc", inStrEsc), mk("inStrPair1", inStrPair1), mk("inStrPair2", inStrPair2), mk("inLit", inLit), mk("inNull", inNull), mk("inUTF8", inUTF8), mk("inDeep", inDeep), mk("inDeep6000", inDeep6000), mk("inFields", inFields),
-		mk("inTopStr1", inTopStr1), mk("inTopStr2", inTopStr2), mk("inTopNum", inTopNum), mk("inKeysA", inKeysA), mk("inKeysB", inKeysB)}
+		mk("inTopStr1", inTopStr1), mk("inTopStr2", inTopStr2), mk("inTopNum", inTopNum), mk("inKeysA", inKeysA), mk("inKeysB", inKeysB),
+		mk("inDeep70", inDeep70), mk("inDeepObj", inDeepObj), mk("inSlowRep1", inSlowRep1), mk("inSlowRep2", inSlowRep2)}
 }()
 
 func restoreInputs() {
@@ -351,6 +358,70 @@ func concTemplates() []concTemplate {
 			p, e := rjson.SkipValue(inDoc2, nil)
 			p2, e2 := rjson.SkipValueFast(inDoc2, nil)
 			return f("%v %v %d %v %d %v %v", e0 != nil, e00 != nil, p, e, p2, e2, rjson.Valid(inDoc2, nil))
+		}},
+		// a caller-owned Buffer used again and again through every entry point, next to a goroutine
+		// that passes nil everywhere: anything that hands an owned Buffer to somebody else (a pool
+		// that takes what it did not lend) makes the two share a stack
+		{"owned Buffer x5 entry points x4", func() string {
+			var b rjson.Buffer
+			out := ""
+			for i := 0; i < 4; i++ {
+				p1, e1 := rjson.SkipValueFast(inDeep, &b)
+				p2, e2 := rjson.SkipValue(inDoc2, &b)
+				v := rjson.Valid(inDeep70, &b)
+				p3, e3 := rjson.HandleArrayValues(inDeep70, declA, &b)
+				p4, e4 := rjson.HandleObjectValues(inDeepObj, rjson.ObjectValueHandlerFunc(func(_, _ []byte) (int, error) { return 0, nil }), &b)
+				out += f("%d %v %d %v %v %d %v %d %v|", p1, e1, p2, e2, v, p3, e3, p4, e4)
+			}
+			return out
+		}},
+		{"nil Buffer x5 entry points x4", func() string {
+			out := ""
+			for i := 0; i < 4; i++ {
+				p1, e1 := rjson.SkipValueFast(inDoc3, nil)
+				p2, e2 := rjson.SkipValue(inDeepObj, nil)
+				v := rjson.Valid(inDoc2, nil)
+				p3, e3 := rjson.HandleArrayValues(inDoc3, declA, nil)
+				p4, e4 := rjson.HandleObjectValues(inDoc, rjson.ObjectValueHandlerFunc(func(_, _ []byte) (int, error) { return 0, nil }), nil)
+				out += f("%d %v %d %v %v %d %v %d %v|", p1, e1, p2, e2, v, p3, e3, p4, e4)
+			}
+			return out
+		}},
+		// declined containers nested deeper than small fixed thresholds, without a Buffer
+		{"HandleArrayValues(depth 70,decline,nil)", func() string {
+			p, err := rjson.HandleArrayValues(inDeep70, declA, nil)
+			p2, err2 := rjson.HandleArrayValues(inDeep, declA, nil)
+			return f("%d %v %d %v", p, err, p2, err2)
+		}},
+		{"HandleObjectValues(depth 45,decline,nil)", func() string {
+			p, err := rjson.HandleObjectValues(inDeepObj, rjson.ObjectValueHandlerFunc(func(_, _ []byte) (int, error) { return 0, nil }), nil)
+			return f("%d %v", p, err)
+		}},
+		// repeated slow-path literals (a one-entry memo is warm for the second occurrence)
+		{"ReadValue(slow-path literals repeated 1)", func() string {
+			v, p, err := rjson.ReadValue(inSlowRep1)
+			a, _ := v.([]interface{})
+			out := f("%d %v", p, err)
+			for _, x := range a {
+				fl, _ := x.(float64)
+				out += f(" %x", math.Float64bits(fl))
+			}
+			return out
+		}},
+		{"ReadObject(slow-path literals repeated 2)", func() string {
+			m, p, err := rjson.ReadObject(inSlowRep2)
+			fa, _ := m["a"].(float64)
+			fb, _ := m["b"].(float64)
+			fc, _ := m["c"].(float64)
+			return f("%d %v %x %x %x", p, err, math.Float64bits(fa), math.Float64bits(fb), math.Float64bits(fc))
+		}},
+		{"ReadFloat64(slow-1 x3)", func() string {
+			out := ""
+			for i := 0; i < 3; i++ {
+				v, p, err := rjson.ReadFloat64(inFloatS1)
+				out += f("%x %d %v|", math.Float64bits(v), p, err)
+			}
+			return out
 		}},
 		{"nested skips(nil buffers)", func() string {
 			p, e := rjson.SkipValue(inDeep, nil)
